@@ -2,6 +2,7 @@ import CacheVerif.Proofs.CacheLedger
 import CacheVerif.Proofs.TableRefine
 import CacheVerif.Proofs.ProtoLin
 import CacheVerif.Proofs.DeepSource
+import CacheVerif.Proofs.DeepSize
 /-!
 # C08 — Size / Count is exact whenever no modification is in flight (sequential part)
 
@@ -155,5 +156,23 @@ example : ∃ (s0 s' : Model.Proto.St Nat Nat),
   ⟨_, _, rfl, rfl, rfl, rfl, rfl, rfl, rfl⟩
 
 end conc
+
+/-! ### `sumSize`, printed from the source: `Size` reports the sum of the counter stripes -/
+section source
+
+/-- **the text of `sumSize` of both tables adds up the counter stripes** (printed by `go2deep -table` on every run,
+sequential meaning `Deep/TInterp.lean`): for every heap - any number of stripes, any contents - the call returns their
+sum, which is what `Size()` converts and returns, what M3 keeps as `Tbl.size`, and what `C08_counter` relates to the
+number of entries at quiescence -/
+theorem C08_source_sumSize_is_stripe_sum {K V : Type} [DecidableEq K] (fuel : Nat) (h : Deep.T.Heap K V) :
+    Deep.T.call fuel h Gen.Deep.T_mapOfTable_sumSize [] = some [.int h.stripes.sum] ∧
+    Deep.T.call fuel h Gen.Deep.T_mapTable_sumSize [] = some [.int h.stripes.sum] :=
+  ⟨Proofs.DeepSize.sumSize_of fuel h, Proofs.DeepSize.sumSize_map fuel h⟩
+
+/-- non-vacuity: eight stripes, one of them negative (a delete accounted on another stripe than its insert) -/
+example : Deep.T.call 0 ({ chains := [], seed := 0#64, hasher := fun _ _ => 0#64, stripes := [2, 0, -1, 0, 5, 0, 0, 1] } : Deep.T.Heap Nat Nat)
+    Gen.Deep.T_mapOfTable_sumSize [] = some [.int 7] := by rfl
+
+end source
 
 end Props.C08
